@@ -12,7 +12,7 @@ set_option linter.unusedSimpArgs false
 /-- an atom produced by a walk whose flag is `r` -/
 def Atom.flagOk (r : Bool) : Atom → Bool
   | .proper _ _ _ r' => r' == r
-  | .text _ _ r' => r' == r
+  | .text _ _ _ r' => r' == r
   | .redir _ _ _ => !r
   | .inject _ _ _ => true
   | .unknown _ => true
@@ -118,14 +118,10 @@ theorem wordParts_flag (wd : Word) : ∀ (ps : List Part) (cwd : String) (r : Bo
 theorem word_flag : ∀ (wd : Word) (cwd : String) (r : Bool), flagAll r (flatWord w wd cwd r) = true
   | .mk v ps, cwd, r => by simp only [flatWord]; exact wordParts_flag (.mk v ps) ps cwd r
 
-theorem condOperand_flag : ∀ (wd : Word) (cwd : String) (r : Bool), flagAll r (flatCondOperand w wd cwd r) = true
+theorem condOperand_flag (regex : Bool) : ∀ (wd : Word) (cwd : String) (r : Bool), flagAll r (flatCondOperand w regex wd cwd r) = true
   | .mk v ps, cwd, r => by
     simp only [flatCondOperand]
-    split
-    · exact wordParts_flag (.mk v ps) ps cwd r
-    · split
-      · rfl
-      · simp [Atom.flagOk]
+    split <;> simp [wordParts_flag (.mk v ps) ps cwd r, Atom.flagOk]
 
 theorem words_flag : ∀ (ws : List Word) (cwd : String) (r : Bool), flagAll r (flatWords w ws cwd r) = true
   | [], _, _ => by simp [flatWords]
@@ -153,8 +149,8 @@ theorem casePats_flag : ∀ (ps : List CasePat) (cwd : String) (r : Bool), flagA
     simp [flatCasePats, optNode_flag body cwd r, casePats_flag ps cwd r, Atom.flagOk]
 
 theorem cond_flag : ∀ (c : Cond) (cwd : String) (r : Bool), flagAll r (flatCond w c cwd r) = true
-  | .unary _ o, cwd, r => by simp only [flatCond]; exact condOperand_flag o cwd r
-  | .binary _ l r', cwd, r => by simp [flatCond, condOperand_flag l cwd r, condOperand_flag r' cwd r]
+  | .unary _ o, cwd, r => by simp only [flatCond]; exact condOperand_flag false o cwd r
+  | .binary op l r', cwd, r => by simp [flatCond, condOperand_flag false l cwd r, condOperand_flag (op == "=~") r' cwd r]
   | .and l r', cwd, r => by simp [flatCond, cond_flag l cwd r, cond_flag r' cwd r]
   | .or l r', cwd, r => by simp [flatCond, cond_flag l cwd r, cond_flag r' cwd r]
   | .not o, cwd, r => by simp only [flatCond]; exact cond_flag o cwd r
